@@ -87,6 +87,7 @@ type vlCase struct {
 	CKeys    [][]int64   `json:"ckeys"`    // [cid, key] storage cells to dump
 	Blocks   []vlBlock   `json:"blocks"`
 	Cids     map[string][]int64 `json:"cids"` // cid -> [creator id, nonce]
+	Workers  int         `json:"workers"`          // chain mode: number of signature verifier workers (0 = default)
 }
 
 type vlEnv struct {
@@ -113,6 +114,8 @@ func vlBig(s string) *big.Int {
 var vlDataDir string
 var vlChainCount int
 
+var vlWorkers int
+
 func vlMakeChain() *ChainService {
 	serverCtx := config.NewServerContext("", "")
 	testCfg = serverCtx.GetDefaultConfig().(*config.Config)
@@ -121,6 +124,9 @@ func vlMakeChain() *ChainService {
 	vlChainCount++
 	testCfg.DataDir = fmt.Sprintf("%s/chain%d", vlDataDir, vlChainCount)
 	os.MkdirAll(testCfg.DataDir, 0o755)
+	if vlWorkers > 0 {
+		testCfg.Blockchain.VerifierCount = vlWorkers
+	}
 	testCfg.UseTestnet = true
 	dfltUseMempool = false
 	cs := NewChainService(testCfg)
@@ -796,7 +802,9 @@ func TestVerifLedgerEngine(t *testing.T) {
 		sort.Ints(c.Ids)
 		e := &vlEnv{keys: map[int]*btcec.PrivateKey{}, addrs: map[int][]byte{}, rev: map[string]int{}, c: c}
 		if c.Mode == "chain" {
+			vlWorkers = c.Workers
 			e.cs = vlMakeChain()
+			vlWorkers = 0
 		} else {
 			if shared == nil {
 				shared = vlMakeChain()
